@@ -98,6 +98,103 @@ class C13(Check):
     harness_sources = ['harness/serverwrite.cpp', 'harness/serverwrite_kernel.cpp']
     per_case_timeout = 20
     level_text = ('Theorems in Coq about a model of one Server client (ClientImpl::write/read/suspend/resume, the client part of the '
+                  'dispatch in Server::Private::run, Poll::set/remove and the epoll event mapping incl. EPOLLRDHUP/EPOLLERR) and about a '
+                  'model of TWO clients sharing the Server\'s Socket::Poll (epoll variant: the cache of events collected by one '
+                  'epoll_wait and handed out one per poll() call, pruned by Poll::set/remove) and its closing-clients set, for EVERY '
+                  'history: the answer of the operating system to every send (would-block, any partial count, full, 0, error) and the '
+                  'readiness reported by every poll round are inputs of the steps. Proved: bytes handed to the OS ++ backlog = '
+                  'concatenation in call order of the writes that returned true; peer bytes ++ bytes in flight = bytes handed to the OS; '
+                  'postponed / getSendBufferSize = accepted - handed over; onWrite in a step iff that step hands the whole non-empty '
+                  'backlog over (at most one callback per step); every event reporting the client writable offers the backlog to the '
+                  'OS whether or not it is also readable, and the backlog drains within |backlog| such events with exactly one onWrite; '
+                  'the dispatch rule of the code before fixes/C13/01 starves the backlog forever (theorem with witness); a suspended '
+                  'client gets no onRead - for one client and for two clients, i.e. also when its read readiness was already collected '
+                  'in the poll round in which another client\'s callback suspends it (the cache never holds an event kind its client is '
+                  'not registered for at that moment); interest set invariant; the one-client model is the two-client model restricted '
+                  'to client A; both models refine the reference objects the implementation is judged against. The models are tied to the '
+                  'code by running the extracted models, the extracted reference objects and the ASan/UBSan build of the working tree on '
+                  'the same histories under a simulated kernel (send/epoll_ctl/epoll_wait interposed): return values, postponed, '
+                  'getSendBufferSize, isSuspended, callbacks (per client, in order), intercepted send calls, bytes handed to the OS, epoll '
+                  'registration masks and the byte streams read at the peer ends of the socket pairs are compared line by line.')
+    level_note = ('partial: the kernel\'s in-order delivery of the bytes it accepted (stream socket semantics) is assumed (the model\'s wire '
+                  'is a FIFO; the harness does read the peer end of a real socket pair and compares). At most two clients; listeners, '
+                  'establishers, timers of the same loop are C14. Write sizes and backlogs are assumed < 2^31 bytes: Socket::send passes '
+                  '(int)size to ::send and the model does not narrow (a backlog whose low 32 bits are 0 would be sent as 0 bytes and the '
+                  'connection given up). Choices where the property text is silent and the reference object follows the code: a write '
+                  'of 0 bytes on a connection without backlog issues send(fd, p, 0), whose result 0 is treated as "connection closed" '
+                  '(write returns false, onClosed follows) - DESIGN 5 lists this as outside the statements, not patched; a hang-up '
+                  '(EPOLLHUP/EPOLLRDHUP) counts as read readiness and, when no read is wanted, as write readiness; EPOLLERR alone '
+                  'notifies nobody; an event that delivers onWrite/onClosed does not also deliver onRead (reported again, level-'
+                  'triggered); two failures before the next run() owe ONE onClosed, a failure after that onClosed owes another one; '
+                  'notifications collected in a poll round keep the parts fixed at collection time, later changes of interest only '
+                  'revoke parts (never add). Validated by correspondence only: that Server.cpp/Socket.cpp behave as the models '
+                  '(differential, simulated kernel; the order in which a real kernel reports several ready descriptors is an input); '
+                  'Buffer internals are C08. Modelled as input: every send result, every epoll readiness report, peer behaviour, order '
+                  'of application calls. Trusted: Coq kernel, extraction + OCaml driver, harness + interposed kernel.')
+    technique = 'Coq proof (invariant + induction over histories + refinement to a reference object) ; differential correspondence under a simulated kernel'
+    rule = ('cases = histories of write(size, send outcome; with and without postponed pointer) / poll event(readiness mask over '
+            'IN OUT HUP RDHUP ERR, send outcome) / real-epoll poll / tick / suspend / resume / read / peer write, read, close / remove, '
+            'also issued from inside callbacks; two-client cases: one epoll round reporting both clients in either order, the callback '
+            'of the first acting on the second (suspend, resume, remove, write, read); exhaustive small scopes: all histories of length '
+            '3 (thorough: 4) over 12 (14) representative operations; write size 0..5 x every outcome x second write x every outcome of '
+            'the write-ready send; every readiness mask x {backlog, none} x {suspended, not} x outcome; order x pre-state x readiness of '
+            'both clients x reaction; random histories aimed at partial counts 1, n-1, n, n+1. A case is non-trivial when the '
+            'implementation had a backlog at some point (sb>0), or got a poll event while a client was suspended, or gave a connection '
+            'up; distinct = distinct op text')
+    assumptions = ['stream socket: the kernel delivers the bytes it accepted from send, in order, to the peer (FIFO wire in the model)',
+                   'epoll is level-triggered and reports only registered events plus EPOLLHUP/EPOLLERR (kernel_filter in the model, '
+                   'the interposed epoll_wait in the harness); one epoll_wait reports a descriptor at most once',
+                   'send returns -1/EAGAIN, -1/error, 0, or 1..n (send_ret); a send of 0 bytes returns 0',
+                   'every write size and backlog is < 2^31 bytes ((int)size in Socket::send is not modelled)',
+                   'callbacks do not re-enter Server::run; every one-client operation calls Poll::set/remove at most once']
+
+    def __init__(self):
+        self.backlog = 0
+        self.susp = False
+        self.gone = False
+
+    def write(self, n, outcome):
+        if self.backlog > 0:
+            self.backlog += n
+            return
+        s = sent_of(outcome, n)
+        if s is None:
+            self.gone = True          # closing: the application is told by onClosed
+        else:
+            self.backlog = n - s
+
+    def ev(self, mask, outcome):
+        if self.backlog > 0 and ('o' in mask or ('h' in mask and (self.susp or not ('i' in mask or 'h' in mask)))):
+            s = sent_of(outcome, self.backlog)
+            if s is None:
+                self.backlog = 0
+                self.gone = True
+            else:
+                self.backlog -= s
+
+
+def aimed_outcome(rng, n, allow_fail=False):
+    """an outcome for a send of n bytes aimed at the case splits: refuse / 1 / middle / n-1 / n / more than n"""
+    r = rng.random()
+    if allow_fail and r < 0.06:
+        return rng.choice(['zero', 'err'])
+    if r < 0.22:
+        return 'wb'
+    if r < 0.40:
+        return 'full'
+    if n <= 1:
+        return rng.choice(['s1', 'full', 'wb'])
+    pick = rng.choice([1, n - 1, n, n + 1, rng.randrange(1, n + 1), max(1, n // 2)])
+    return 's%d' % pick
+
+
+class C13(Check):
+    id = 'C13'
+    comp = 'ServerWrite'
+    extracted = ['coq/ServerWrite/model.mli', 'coq/ServerWrite/model.ml', 'ocaml/zconv.ml', 'ocaml/serverwrite_driver.ml']
+    harness_sources = ['harness/serverwrite.cpp', 'harness/serverwrite_kernel.cpp']
+    per_case_timeout = 20
+    level_text = ('Theorems in Coq about a model of one Server client (ClientImpl::write/read/suspend/resume, the client part of the '
                   'dispatch in Server::Private::run, Poll::set/remove and the epoll event mapping), for EVERY history: the answer of '
                   'the operating system to every send (would-block, any partial count, full, 0, error) and the readiness reported by '
                   'every poll are inputs of the steps. Proved: bytes handed to the OS ++ backlog = concatenation in call order of the '
